@@ -10,3 +10,10 @@ func (d *vDatapath) SummaryGtpuLatency(uc *upfCollector, ch chan<- prometheus.Me
 func (d *vDatapath) SessionStats(pc *PfcpNodeCollector, ch chan<- prometheus.Metric) error {
 	return nil
 }
+
+func (d *vTDatapath) SummaryLatencyJitter(uc *upfCollector, ch chan<- prometheus.Metric) {}
+func (d *vTDatapath) PortStats(uc *upfCollector, ch chan<- prometheus.Metric)            {}
+func (d *vTDatapath) SessionStats(pc *PfcpNodeCollector, ch chan<- prometheus.Metric) error {
+	return nil
+}
+func (d *vTDatapath) SummaryGtpuLatency(uc *upfCollector, ch chan<- prometheus.Metric)   {}
